@@ -73,7 +73,7 @@ def generate(rng, tier):
     n = 1500 if tier == 'thorough' else 80
     return pipeline.guided_cases(rng, n, dup_history, 'dup', cfgmod=mod) + udp_cases(rng, 300 if tier == 'thorough' else 30)
 
-UDP_CONF = ['conf client nasfarm {', 'conf   type udp', 'conf   host 10.0.0.0/24', 'conf   secret x', 'conf }',
+UDP_CONF = ['conf client nasfarm {', 'conf   type udp', 'conf   host 10.0.0.0/24', 'conf   host [2001:db8::]/64', 'conf   secret x', 'conf }',
             'conf server s1 {', 'conf   type udp', 'conf   host 10.1.0.1', 'conf   secret y', 'conf }',
             'conf realm * {', 'conf   server s1', 'conf }', 'cfg nopipe']
 
@@ -82,18 +82,23 @@ def udp_cases(rng, n):
     which client object (duplicate cache) each is attributed to, and the arrival time stamped on the request"""
     out = []
     for k in range(n):
-        srcs = [(rng.randrange(1, 5), rng.choice([1000, 1000, 2000])) for _ in range(rng.randrange(2, 5))]
+        v6 = (k % 3 == 2)      # every third case: IPv6 sources (same address, different ports are different associations)
+        def src_text(a):
+            return ('v6-20010db800000000' + '%016x' % a) if v6 else '10.0.0.%d' % a
+        srcs = [(rng.randrange(1, 5 if not v6 else 3), rng.choice([1000, 1000, 2000])) for _ in range(rng.randrange(2, 5))]
         t = 1000
         evs = []
         for _ in range(rng.randrange(3, 14)):
             t += rng.choice([0, 0, 1, 1, 5, 30, 59, 60, 61, 100, 200])
             if rng.random() < 0.1:
-                evs.append('%d:10.9.9.%d:%d:%s' % (t, rng.randrange(1, 9), 1000, '0101001400000000000000000000000000000000'))   # not a peer
+                notpeer = ('v6-20010db900000000%016x' % rng.randrange(1, 9)) if v6 else '10.9.9.%d' % rng.randrange(1, 9)
+                evs.append('%d:%s:%d:%s' % (t, notpeer, 1000, '0101001400000000000000000000000000000000'))   # not a peer
                 continue
             a, p = rng.choice(srcs)
             pkt = bytes([1, rng.randrange(256), 0, 20]) + rbytes(rng, 16)
-            evs.append('%d:10.0.0.%d:%d:%s' % (t, a, p, hx(pkt)))
+            evs.append('%d:%s:%d:%s' % (t, src_text(a), p, hx(pkt)))
             if rng.random() < 0.4:
-                evs.append('%d:10.0.0.%d:%d:%s' % (t + rng.choice([0, 1]), a, p, hx(pkt)))    # retransmission
+                t += rng.choice([0, 1])          # the clock never runs backwards
+                evs.append('%d:%s:%d:%s' % (t, src_text(a), p, hx(pkt)))    # retransmission
         out.append(('udp-%d' % k, UDP_CONF + ['op udp ' + ' '.join(evs)]))
     return out
